@@ -25,7 +25,7 @@ RULE = ("cases: random recipes (all connectives, depth<=5, fan-out<=8, DAG shari
         ' Also: hostile twins of the base recipe run in the same process, the same definition through another class (aliases), leaves wider than 32 bits, and the bounded sweep of small formulas shared with C04.')
 BUDGET = {"quick": (12, 1350, 90), "thorough": (16, 2500, 1200)}
 PYTEST = True     # thorough tier also runs the repository's own tests under these monitors
-MANDATORY = ["judged:active-iff-true", "judged:inactive-feasible", "judged:columns", "contract:AtLeast.to_ge_polyhedron", "contract:StingyConfigurator.ge_polyhedron"]
+MANDATORY = ["judged:active-iff-true", "judged:inactive-feasible", "judged:columns", "contract:AtLeast.to_ge_polyhedron", "contract:StingyConfigurator.ge_polyhedron", "count:evaluated-then-converted"]
 
 _n = 0
 
@@ -168,6 +168,9 @@ def gen_case(rng, tier, ctx, i):
         from . import c04
         ctx.count("count:bounded-sweep-formulas")
         return {"recipe": recipes.strip(c04.next_sweep(i, ctx.seed))}
+    if rng.random() < 0.03:
+        from . import c03
+        return {"recipe": c03.special_case(rng, ctx)["recipe"]}        # thresholds of large magnitude; sub-propositions without sub-propositions of their own
     o = common.varied_opts(rng, tier, p_huge=0.08)
     rec = common.model_case(rng, tier, o)
     if rec is None:
@@ -219,8 +222,17 @@ def _run_one(case, ctx):
     m = recipes.fresh(case["recipe"])
     if adapters.is_leaf(m):
         raise monitor.OutOfScope()
-    common.domain(m, recipe=case["recipe"])
-    ctx.call("to_ge_polyhedron(True)", m.to_ge_polyhedron, True)
+    graph, top, info = common.domain(m, recipe=case["recipe"])
+    import zlib
+    if zlib.crc32(repr(case["recipe"]).encode()) % 3 == 0:
+        # a model that has already been evaluated at a point (leaf values only) is converted afterwards: the system is about the declared box
+        import random
+        r_ = random.Random(zlib.crc32(repr(case["recipe"]).encode()))
+        lids, lb = common.leaf_box(graph, top)
+        x = {i: r_.randint(int(lo), int(hi)) for i, (lo, hi) in zip(lids, lb)}
+        ctx.call("evaluate_propositions", m.evaluate_propositions, x)
+        ctx.count("count:evaluated-then-converted")
+        common.domain(m, recipe=case["recipe"])
     ctx.call("to_ge_polyhedron(False)", m.to_ge_polyhedron, active=False)
     ctx.call("to_ge_polyhedron()", m.to_ge_polyhedron)          # the documented default is the un-asserted system
     if case.get("configurator"):
